@@ -192,16 +192,25 @@ def compare(h):
     Returned as dict(step, op, real, model, what)."""
     modes = {}
     types = {}
+    peaks = {}
+    consumed = {}
     for k, op in enumerate(h.ops):
         t = op.split()
         slot = t[0]
         if len(t) > 1 and t[1] == "new":
             modes[slot] = data_mode(op)
             types[slot] = t[2]
+            peaks.pop(slot, None)
         r, m = h.real[k], h.model[k]
         if r in ("skip",) and m in ("skip",):
             continue
         fr, fm = fields(r), fields(m)
+        if len(t) > 1 and t[1] in ("proc", "part") and fr["status"].startswith("ok "):
+            a_ = fr["status"].split()
+            if len(a_) > 1 and a_[1].isdigit():
+                consumed[slot] = consumed.get(slot, 0) + int(a_[1])
+        if len(t) > 1 and t[1] in ("new", "reset"):
+            consumed[slot] = 0
         if fr["status"] != fm["status"]:
             return {"step": k, "op": op, "real": r, "model": m, "what": "status"}
         if fr["g"] != fm["g"]:
@@ -224,7 +233,20 @@ def compare(h):
                     vr, vm = decode_dump(cr, ty), decode_dump(cm, ty)
                     if vr is None or vm is None or len(vr) != len(vm):
                         return {"step": k, "op": op, "real": r[:400], "model": m[:400], "what": "data-len"}
-                    peak = max([1.0] + [abs(x) for x in vm])
+                    # rounding errors of a filter scale with the magnitude of what went THROUGH it, not only with the frames of
+                    # this block: use the largest magnitude this slot has produced so far (signals with a large dynamic range)
+                    peak = max([1.0, peaks.get(slot, 0.0)] + [abs(x) for x in vm if x == x])
+                    peaks[slot] = peak
+                    if mode == "ffttol":
+                        # ... and the FFT blocks already hold input the output has not reached yet (delay, saved frames): a
+                        # polynomial test signal p<deg>,<seed> (coefficients in -3..3, argument frame/64) grows like u^deg
+                        sgs = [w for w in op.split()[3:7] if w[:1] == "p" and "," in w]
+                        if sgs and fr["status"].startswith("ok"):
+                            deg = int(sgs[0][1:].split(",")[0])
+                            st_ = fr["status"].split()
+                            nin = int(st_[1]) if len(st_) > 2 and st_[1].isdigit() else 0
+                            u = (consumed.get(slot, 0) + nin + 4096) / 64.0
+                            peak = max(peak, 3.0 * (deg + 1) * max(1.0, u) ** deg)
                     for j, (a, b) in enumerate(zip(vr, vm)):
                         if not abs(a - b) <= tol * peak:
                             return {"step": k, "op": op, "real": f"frame {j}: {a!r}", "model": f"frame {j}: {b!r}",
